@@ -34,6 +34,14 @@ theorem fact_reserved_lists :
              [101, 120, 97, 109, 112, 108, 101], [105, 110, 118, 97, 108, 105, 100]], t ∈ tlds) ∧      -- "", localhost, local, test, example, invalid
     [101, 120, 97, 109, 112, 108, 101, 46, 99, 111, 109] ∈ l2s := by decide                             -- example.com
 
+/-- the empty TLD entry is what makes hosts written with a trailing (root) dot reserved: `localhost.`, `1.2.3.4.` and
+    `nuts.nl.` are refused in strict mode although `net.ParseIP` / the name lists do not match them -/
+example : isReserved tlds l2s [108, 111, 99, 97, 108, 104, 111, 115, 116, 46] = .ok true ∧
+    isReserved tlds l2s [49, 46, 50, 46, 51, 46, 52, 46] = .ok true ∧ isIP [49, 46, 50, 46, 51, 46, 52, 46] = false ∧
+    parsePublicURL tlds l2s [104, 116, 116, 112, 115, 58, 47, 47, 49, 46, 50, 46, 51, 46, 52, 46] true = .err "reserved" ∧   -- https://1.2.3.4.
+    parsePublicURL tlds l2s [104, 116, 116, 112, 115, 58, 47, 47, 110, 117, 116, 115, 46, 110, 108, 46] true = .err "reserved" := by   -- https://nuts.nl.
+  refine ⟨?_, ?_, ?_, ?_, ?_⟩ <;> decide
+
 /-- moved keys stop `Load`, whatever the mode (no strict-mode operand in the condition) -/
 theorem fact_moved_keys : Facts.C20.loadConds.head? =
     some "ngc.LegacyTLS.TrustStoreFile != \"\" || ngc.LegacyTLS.CertKeyFile != \"\" || ngc.LegacyTLS.CertFile != \"\"" := by decide
